@@ -69,6 +69,12 @@ def attempt(ctx, imp, topo, op, origin, flavour, store, hist=None):
             # C07/rename-to-existing-name) makes look-ups by name ambiguous; what a call does then is not judged
             from vlib import toporules
             dup = [x for x in toporules.check_rules(topogen.TM(before.get(gid)), VOC[0]) if x[0].startswith('duplicate-name')] if before.get(gid) else []
+            if not dup and before.get(gid):
+                # topology.network_services is keyed by name over ALL services (node-owned ones included): a top-level service
+                # renamed to the name of a component's own service makes every look-up by that name ambiguous as well
+                tmb = topogen.TM(before.get(gid))
+                names = [tmb.name(x) for x in tmb.ids('NetworkService')]
+                dup = sorted({x for x in names if names.count(x) > 1})
             if dup:
                 ctx.count('not-judged:model-already-has-duplicate-names')
                 return 'raise'
@@ -379,6 +385,7 @@ def run_targeted(ctx, imp, store, flavour, tag):
         r = attempt(ctx, imp, topo, op, 'targeted', flavour, store, hist=list(hist))
         if r in ('raise', 'violation'):
             ctx.count('target:' + kind)
+            hist.append(dict(op, _outcome=r))
         elif r == 'ok':
             ctx.count('target-accepted:' + kind + ':' + op['op'])
             hist.append(op)
@@ -404,8 +411,10 @@ def run(ctx):
         for _ in range(rng.randrange(20, 60)):
             op = g.next_op()
             r = attempt(ctx, imp, topo, op, 'history', flavour, store, hist=list(hist))
-            if r == 'ok':
-                hist.append(op)
+            # the witness history lists every call with its outcome (refused calls may still have touched a kept handle)
+            hist.append(op if r == 'ok' else dict(op, _outcome=r))
+            if r == 'violation':
+                break           # what follows a broken call would be judged on a model outside the domain
         # (b) targeted
         h = run_targeted(ctx, imp, store, flavour, i)
         if i == 0:
